@@ -500,7 +500,6 @@ func concCase(seed uint64, idx int, flush bool) *CaseSpec {
 	}}
 }
 
-
 // concElectionDuringOp: an operation of the primary is held at the point where the RIB has
 // changed and its result has not been handed back yet (the post-change hook), another session
 // announces a higher election id meanwhile, the operation goes on. Whatever the server answers,
